@@ -33,7 +33,24 @@ class SubUniverse(universes.Universe):
 _SUBS = {}
 
 
+class TaggedUniverse(universes.Universe):
+    """`<universe>#<tag>`: the documents of <universe>, evaluated by another evaluator of the same property (its own
+    known-finding rank sets are keyed by the full name)."""
+
+    def __init__(self, name):
+        self.name = name
+        self.base = get_universe(name.split("#")[0])
+        self.size = self.base.size
+
+    def doc(self, rank):
+        return self.base.doc(rank)
+
+
 def get_universe(name):
+    if "#" in name:
+        if name not in _SUBS:
+            _SUBS[name] = TaggedUniverse(name)
+        return _SUBS[name]
     if "/" in name:
         if name not in _SUBS:
             b, s = name.split("/")
@@ -103,7 +120,7 @@ def run_universes(run, evaluator_path, plan, tier, seed, opts=None, chunk=200, m
     first = first or {}
     skip = set(filter(None, os.environ.get("VERIF_SKIP_UNIVERSES", "").split(",")))
     for uname, qn in plan.items():
-        if uname.split("/")[0] in skip:
+        if uname.split("/")[0].split("#")[0] in skip or ("#" in uname and "#" + uname.split("#")[1] in skip):
             continue
         ranks, exh = plan_ranks(uname, tier, seed, qn, first.get(uname, 0))
         all_exh &= exh
